@@ -15,7 +15,7 @@ from vmc.checks import c14
 
 PROPERTY = "C13"
 ENGINE = "E2 histories + E1 schema-space"
-RULE = ("(a) every history up to the depth bound over {to_dict, from_dict} x {none, D1, D2, D3} x {class, parent, subclass} on fresh "
+RULE = ("(a) every history up to the depth bound over {to_dict, from_dict (and to_jsonb, from_json, to_msgpack, from_msgpack on the format-mixin family)} x {none, D1, D2, D3} x {class, parent, subclass} on fresh "
         "families (eager / lazy / postponed): each call's outcome equals a fresh twin with that dialect as Config.dialect; "
         "(b) every format x every subset of size <= 2 of the six dialect options x values: the format document parsed by the format's "
         "own library equals the basic codec's output under the same dialect, and the decoder dually. Non-trivial: a call with a "
@@ -28,7 +28,7 @@ DLS = ("n", "D1", "D2", "D3")
 
 
 def bounds(tier):
-    return dict(tier=tier, families=["nested", "inherit", "late (subclass defined by an operation of the history)"], modes=list(c14.MODES), history_depth=3 if tier == "quick" else 4,
+    return dict(tier=tier, families=["nested", "inherit", "formats (to_dict / to_jsonb / to_msgpack and back on one class)", "late (subclass defined by an operation of the history)"], modes=list(c14.MODES), history_depth=3 if tier == "quick" else 4,
                 dialects=list(DLS), formats=list(formats.FORMATS), option_subsets="all of size <= 2 (thorough: <= 3)")
 
 
@@ -37,6 +37,8 @@ def units(tier):
     for fam in ("nested", "inherit"):
         for mode in c14.MODES:
             out.append(("hist", fam, mode, 3 if tier == "quick" else 4))
+    for mode in (("eager", "lazy") if tier == "quick" else c14.MODES):
+        out.append(("hist", "formats", mode, 3))     # one class, three formats: dict / orjson / msgpack calls interleaved
     for mode in ("eager", "lazy"):
         out.append(("hist", "late", mode, 4 if tier == "quick" else 5))     # the subclass is defined by an op of the history
     maxr = 2 if tier == "quick" else 3
